@@ -33,6 +33,7 @@ import (
 
 type pki struct {
 	certFile, keyFile, caFile string
+	foreignCAFile              string
 	caDER, foreignDER         []byte
 	filesOnce                 sync.Once
 	caPool                    *x509.CertPool
@@ -135,6 +136,8 @@ func (p *pki) ensureFiles() {
 		os.WriteFile(p.certFile, pemOf("CERTIFICATE", p.serverCert.Certificate[0]), 0o600)
 		os.WriteFile(p.keyFile, pemOf("EC PRIVATE KEY", keyDER), 0o600)
 		os.WriteFile(p.caFile, pemOf("CERTIFICATE", p.caDER), 0o600)
+		p.foreignCAFile = filepath.Join(dir, "other-ca.crt")
+		os.WriteFile(p.foreignCAFile, pemOf("CERTIFICATE", p.foreignDER), 0o600)
 		trust := filepath.Join(dir, "host-trust.pem")
 		os.WriteFile(trust, pemOf("CERTIFICATE", p.foreignDER), 0o600)
 		os.Setenv("SSL_CERT_FILE", trust)
@@ -456,6 +459,17 @@ func (lr *lifeRun) act(a string) string {
 		lr.oldpw = lr.pw
 		lr.pw = f[1]
 		lr.srv.SetRequirePass(lr.pw)
+		return "ok"
+	case "setca": // setca:<main|foreign>: the application replaces the CA certificate file (takes effect with the next Start)
+		p := getPKI()
+		p.ensureFiles()
+		file := p.caFile
+		if f[1] == "foreign" {
+			file = p.foreignCAFile
+		}
+		if err := lr.srv.SetTLSCaCertFile(file); err != nil {
+			return "err"
+		}
 		return "ok"
 	case "pingold": // pingold:<p|t>: a client that still presents the previous password
 		c, err := lr.dial(f[1], "good")
